@@ -244,8 +244,8 @@ def run(ctx):
             per_slice[cfg] = len(ds)
             defs += ds
     # 3. long requests from TLC's simulator (up to 40 parameters, 4 functions, tuples of 17 and 33)
-    nsim = 1500 if thorough else 60
-    r = tlc.run('Controls', 'Controls_sim.cfg', ctx.work, workers=1 if ctx.quick else 8, timeout=900,
+    nsim = 400 if thorough else 60
+    r = tlc.run('Controls', 'Controls_sim.cfg', ctx.work, workers=1 if ctx.quick else 4, timeout=900,
                 simulate='num=%d' % nsim,
                 depth=46, seed=ctx.seed + 1)
     if not r.ok:
